@@ -77,6 +77,8 @@ pub struct GenCfg {
     /// `_: unknown<N>` gap fields may be written `pub` and carry doc comments (both are meaningless for
     /// padding and must not show in the output)
     pub decorated_gaps: bool,
+    /// a `#[base]` field may have an extern type (no functions, no table: only the conversions matter)
+    pub extern_bases: bool,
 }
 
 impl GenCfg {
@@ -120,6 +122,7 @@ impl GenCfg {
             allow_f20: false,
             big_vft_gaps: false,
             decorated_gaps: false,
+            extern_bases: false,
         }
     }
     pub fn layout_only(w: u64) -> GenCfg {
@@ -326,7 +329,7 @@ impl<'t, 'd> Gen<'t, 'd> {
                 vec![]
             };
             // the statements of a file may stand in any order
-            let sty = if self.cfg.spellings && self.t.chance(1, 3) { self.t.below(64) as u8 } else { 0 };
+            let sty = if self.cfg.spellings && self.t.chance(1, 3) { self.t.below(128) as u8 } else { 0 };
             self.prog.mods.push(Mod {
                 sty,
                 path,
@@ -597,7 +600,7 @@ impl<'t, 'd> Gen<'t, 'd> {
             let cands: Vec<usize> = (0..self.known.len())
                 .filter(|&k| {
                     let kn = &self.known[k];
-                    kn.kind == "struct"
+                    (kn.kind == "struct" || (self.cfg.extern_bases && kn.kind == "extern"))
                         && (kn.module == m || (kn.vis && (!kn.private_vfunc || self.cfg.allow_f20) && kn.hier_pub))
                         && (!packed || kn.packed || self.cfg.allow_packed_embed)
                 })
@@ -854,7 +857,7 @@ impl<'t, 'd> Gen<'t, 'd> {
                         let fname = self.fn_name("fn", &avoid);
                         funcs.push(self.gen_func(m, fname, false));
                     }
-                    self.prog.mods[m].impls.push(Impl { ty: td.name.clone(), funcs });
+                    self.prog.mods[m].impls.push(Impl { more: vec![], ty: td.name.clone(), funcs });
                 }
                 true
             }
@@ -1355,9 +1358,34 @@ impl<'t, 'd> Gen<'t, 'd> {
             0 => self.clash_dup_impl_fn(),
             1 | 2 => self.clash_redeclare_inherited(),
             3 => self.clash_duplicate_member(),
-            8 => self.odd_enum_base(),
+            8 => {
+                if self.t.chance(1, 2) {
+                    self.odd_enum_base()
+                } else {
+                    self.case_variant_type()
+                }
+            }
             _ => self.clash_rename(!self.cfg.clash_renames),
         }
+    }
+
+    /// a further small type in some module whose name differs from an existing item's name only in case
+    fn case_variant_type(&mut self) {
+        let sites: Vec<(usize, String)> = self.prog.mods.iter().enumerate().flat_map(|(mi, m)| m.items.iter().map(move |i| (mi, i.name().to_string()))).collect();
+        if sites.is_empty() {
+            return;
+        }
+        let (mi, name) = sites[self.t.below(sites.len() as u64) as usize].clone();
+        let variant = if name.chars().any(|c| c.is_ascii_uppercase()) { name.to_ascii_lowercase() } else { name.to_ascii_uppercase() };
+        if variant == name || self.prog.mods[mi].items.iter().any(|i| i.name() == variant) {
+            return;
+        }
+        self.prog.mods[mi].items.push(Item::Type(TypeDef {
+            vis: true,
+            name: variant,
+            fields: vec![Field::new("a", Ty::n("u32")), Field::new("b", Ty::n("u32"))],
+            ..Default::default()
+        }));
     }
 
     /// an enum over something that is not an integer type (bool, a float, void, a user type, an extern type)
@@ -1446,7 +1474,7 @@ impl<'t, 'd> Gen<'t, 'd> {
         }
         match self.prog.mods[mi].impls.iter_mut().find(|im| im.ty == tn) {
             Some(im) => im.funcs.push(f),
-            None => self.prog.mods[mi].impls.push(Impl { ty: tn, funcs: vec![f] }),
+            None => self.prog.mods[mi].impls.push(Impl { more: vec![], ty: tn, funcs: vec![f] }),
         }
     }
 
